@@ -109,3 +109,42 @@ func VP_C13_ColliderReaders() {
 	vp.Assert(gotD[0] == wantD[0] && gotD[1] == wantD[1], "concurrent SDF queries get the sequential answers")
 	vp.Reach("end")
 }
+
+// VP_C13_DCInterior: the edge stage of dual contouring (index-partitioned
+// concurrent map; per-worker interior-point buffers merged under a lock) does
+// not race in any interleaving of its workers, and the interior list does not
+// depend on the worker count. The corner stage before it runs under one
+// schedule (same concurrent-map helper).
+func VP_C13_DCInterior() {
+	solid := NewRect(XYZ(-0.3, -0.3, -0.3), XYZ(0.3, 0.3, 0.3))
+	run := func(gos int, explore bool) []Coord3D {
+		dc := &DualContouring{S: SolidSurfaceEstimator{Solid: solid, BisectCount: 2, NormalBisectEpsilon: 1e-3}, Delta: 0.5, NoJitter: true, MaxGos: gos, Clip: true}
+		layout := newDcCubeLayout(solid.Min(), solid.Max(), dc.Delta, dc.NoJitter, dc.BufferSize)
+		dc.populateCorners(layout)
+		if explore {
+			vp.ExploreSchedules()
+		}
+		var interior []Coord3D
+		dc.populateEdges(layout, &interior)
+		return interior
+	}
+	want := run(1, false)
+	got := run(vp.Param("gos"), true)
+	vp.Assert(len(want) > 0, "the sequential run reports interior points")
+	vp.Assert(len(got) == len(want), "same number of interior points as the sequential run")
+	cnt := map[Coord3D]int{}
+	for _, p := range want {
+		cnt[p]++
+	}
+	for _, p := range got {
+		cnt[p]--
+	}
+	same := true
+	for _, v := range cnt {
+		if v != 0 {
+			same = false
+		}
+	}
+	vp.Assert(same, "same interior points as the sequential run")
+	vp.Reach("end")
+}
